@@ -8,7 +8,7 @@ require (
 	github.com/gertd/go-pluralize v0.2.1 // indirect
 	github.com/grpc-ecosystem/grpc-gateway/v2 v2.29.0 // indirect
 	github.com/planetscale/vtprotobuf v0.6.1-0.20240319094008-0393e58bdf10 // indirect
-	github.com/siderolabs/gen v0.8.7 // indirect
+	github.com/siderolabs/gen v0.8.7
 	github.com/siderolabs/go-pointer v1.0.1 // indirect
 	github.com/siderolabs/protoenc v0.2.4 // indirect
 	go.yaml.in/yaml/v4 v4.0.0-rc.6 // indirect
@@ -22,3 +22,15 @@ require (
 )
 
 replace github.com/cosi-project/runtime => /repo
+
+require github.com/ProtonMail/gopenpgp/v2 v2.10.0
+
+require github.com/ProtonMail/go-crypto v1.4.1 // indirect
+
+require github.com/ProtonMail/go-mime v0.0.0-20230322103455-7d82a3887f2f // indirect
+
+require github.com/cloudflare/circl v1.6.4 // indirect
+
+require github.com/pkg/errors v0.9.1 // indirect
+
+require golang.org/x/crypto v0.54.0 // indirect
